@@ -1,9 +1,9 @@
 #!/bin/bash
-# tools/keep_mutants.sh <PROP>: copy /tmp/wt_<PROP>/seed_out/m* to /verif/seeded/<PROP>-m*/ and remove the worktree
-prop="$1"; wt="/tmp/wt_$prop"
+# tools/keep_mutants.sh <PROP> [round]: copy /tmp/wt[round]_<PROP>/seed_out/m* to /verif/seeded/<PROP>-[r<round>]m*/ and remove the worktree
+prop="$1"; round="${2:-}"; wt="/tmp/wt${round}_$prop"
 for d in "$wt"/seed_out/m*; do
   [ -d "$d" ] || continue
-  k="$(basename "$d")"; dest="/verif/seeded/$prop-$k"
+  k="$(basename "$d")"; dest="/verif/seeded/$prop-${round:+r$round}$k"
   mkdir -p "$dest"; cp "$d"/patch.diff "$d"/demo.py "$dest"/ 2>/dev/null; cp "$d"/notes.txt "$dest"/ 2>/dev/null
   echo "kept $dest"
 done
